@@ -54,6 +54,12 @@ BUILTINS = {"abs": sp.Abs, "float": lambda a: a, "int": lambda a: a,
 
 
 class Translator:
+    # branch selection for 3-argument np.where(cond, a, b): the k-th where()
+    # met during a translation takes branch CHOICES[k] (True -> a); callers
+    # that want all cases enumerate the combinations (see inline_cases)
+    CHOICES: list = []
+    WHERE_COUNT = 0
+
     def __init__(self, prog: Program, mod, env=None, inline_depth=3,
                  attr_symbols=True):
         self.prog = prog
@@ -156,6 +162,12 @@ class Translator:
             d = self.prog.resolve_name(self.mod, f.id)
         elif isinstance(f, ast.Attribute):
             d = self.prog.dotted(self.mod, f)
+        if d == "numpy.where" and len(n.args) == 3:
+            k = Translator.WHERE_COUNT
+            Translator.WHERE_COUNT += 1
+            take_a = Translator.CHOICES[k] if k < len(Translator.CHOICES) \
+                else True
+            return self.expr(n.args[1] if take_a else n.args[2])
         if d in FUNCS:
             args = [self.expr(a) for a in n.args]
             try:
@@ -232,6 +244,26 @@ def inline(prog, fi, args, kwargs=None, depth=2):
     if r is None:
         raise Untranslatable("no return value in " + fi.short)
     return r
+
+
+def inline_cases(prog, fi, args, kwargs=None, depth=2, cap=4):
+    """all branch combinations of the np.where(cond, a, b) selections met
+    while translating fi: [(choices, expr)]"""
+    import itertools
+    Translator.CHOICES, Translator.WHERE_COUNT = [], 0
+    first = inline(prog, fi, args, kwargs, depth)
+    k = Translator.WHERE_COUNT
+    out = [((True,) * k, first)]
+    if k > cap:
+        raise Untranslatable("%d data-dependent selections in %s" %
+                             (k, fi.short))
+    for combo in itertools.product([True, False], repeat=k):
+        if all(combo):
+            continue
+        Translator.CHOICES, Translator.WHERE_COUNT = list(combo), 0
+        out.append((combo, inline(prog, fi, args, kwargs, depth)))
+    Translator.CHOICES, Translator.WHERE_COUNT = [], 0
+    return out
 
 
 # --------------------------------------------------------------------------
